@@ -69,6 +69,13 @@ def run_case(case):
                 ov['subs'] = rng.choice([['F'], ['P', 'E'], ['F', 'E', 'P'],
                                          ['P', 'P', 'F']])
             plan.setdefault('tests', {})[tid] = ov
+    if lnames and rng.random() < 0.25:
+        # on top of that a layer whose tearDown raises (an ordinary
+        # exception): the other layers are still torn down, the summary is
+        # still printed
+        ln = rng.choice(lnames)
+        plan.setdefault('layers', {}).setdefault(ln, {}).setdefault(
+            'tearDown', 'raise:' + rng.choice(['ValueError', 'OSError']))
     opts = {'stop': True, 'verbose': rng.randint(0, 2)}
     if rng.random() < 0.4:
         opts['repeat'] = rng.randint(2, 3)
